@@ -5,15 +5,15 @@
  * (src/vbi.c vbi_event_handler_register/unregister/add/remove, vbi_send_event,
  * and vbi_decode of a real Teletext page for the gating clause).
  *
- * Alphabet (67 letters), handlers = 3 callback functions x 2 user pointers:
- *   reg(f,u,m)  24   vbi_event_handler_register, m in {TTX, CC, TTX|CC, -1}
+ * Alphabet (79 letters), handlers = 3 callback functions x 2 user pointers:
+ *   reg(f,u,m)  30   vbi_event_handler_register, m in {TTX, CC, TTX|CC, -1, TRIGGER|NETWORK}
  *   unreg(f,u)   6   vbi_event_handler_unregister   (== register with mask 0)
- *   add(f,u,m)  24   legacy vbi_event_handler_add (matches on function only)
+ *   add(f,u,m)  30   legacy vbi_event_handler_add (matches on function only)
  *   remove(f)    3   legacy vbi_event_handler_remove (== add with mask 0)
  *   raise(T)     3   vbi_send_event, T in {TTX_PAGE, CAPTION, NETWORK}
  *   transmit     1   vbi_decode of page 2xx (header, one row, terminating
  *                    header 2FF) -> real TTX_PAGE event, vbi_is_cached oracle
- *   in(f,u):     6   prefix: the NEXT letter (one of the 57 calls above) is not
+ *   in(f,u):     6   prefix: the NEXT letter (one of the 69 calls above) is not
  *                    executed now but scripted into handler (f,u): it runs
  *                    inside that handler's next invocation (at most 2 scripted
  *                    actions per history, both may sit on the same handler)
@@ -133,24 +133,25 @@ void __wrap_free(void *p)
 #define NF 3
 #define NU 2
 #define NH (NF * NU)
-#define NM 4
-static const int   MASKS[NM] = { VBI_EVENT_TTX_PAGE, VBI_EVENT_CAPTION, VBI_EVENT_TTX_PAGE | VBI_EVENT_CAPTION, -1 };
-static const char *MASKN[NM] = { "TTX", "CC", "TTX|CC", "ALL" };
+#define NM 5
+#define FS (NU * NM)    /* letters per function in the reg/add blocks */
+static const int   MASKS[NM] = { VBI_EVENT_TTX_PAGE, VBI_EVENT_CAPTION, VBI_EVENT_TTX_PAGE | VBI_EVENT_CAPTION, -1, VBI_EVENT_TRIGGER | VBI_EVENT_NETWORK };
+static const char *MASKN[NM] = { "TTX", "CC", "TTX|CC", "ALL", "TRIGGER|NETWORK" };
 static const int   TYPES[3]  = { VBI_EVENT_TTX_PAGE, VBI_EVENT_CAPTION, VBI_EVENT_NETWORK };
 static const char *TYPEN[3]  = { "TTX_PAGE", "CAPTION", "NETWORK" };
 
 enum { K_REG, K_UNREG, K_ADD, K_REMOVE };
 static const char *KINDN[4] = { "register", "unregister", "add", "remove" };
-enum { L_REG = 0, L_UNREG = 24, L_ADD = 30, L_REMOVE = 54, NOPS = 57, L_RAISE = 57, L_TX = 60, L_IN = 61, NLETTERS = 67 };
+enum { L_REG = 0, L_UNREG = NF * FS, L_ADD = L_UNREG + NH, L_REMOVE = L_ADD + NF * FS, NOPS = L_REMOVE + NF, L_RAISE = NOPS, L_TX = L_RAISE + 3, L_IN = L_TX + 1, NLETTERS = L_IN + NH };
 
 struct op { int kind, f, u, mi; };   /* mi: index into MASKS, -1 for mask 0 */
 
 static struct op decode_op(int l)
 {
         struct op o = { 0, 0, 0, -1 };
-        if (l < L_UNREG)       { o.kind = K_REG;   o.f = l / 8; o.u = (l / 4) % 2; o.mi = l % 4; }
+        if (l < L_UNREG)       { o.kind = K_REG;   o.f = l / FS; o.u = (l / NM) % NU; o.mi = l % NM; }
         else if (l < L_ADD)    { o.kind = K_UNREG; l -= L_UNREG; o.f = l / 2; o.u = l % 2; }
-        else if (l < L_REMOVE) { o.kind = K_ADD;   l -= L_ADD; o.f = l / 8; o.u = (l / 4) % 2; o.mi = l % 4; }
+        else if (l < L_REMOVE) { o.kind = K_ADD;   l -= L_ADD; o.f = l / FS; o.u = (l / NM) % NU; o.mi = l % NM; }
         else                   { o.kind = K_REMOVE; o.f = l - L_REMOVE; }
         return o;
 }
@@ -582,7 +583,7 @@ static int run(const uint8_t *hist, int n, uint64_t hash[2], void *arg)
         G.vbi = vbi_decoder_new();
         if (!G.vbi) { fprintf(stderr, "C11: vbi_decoder_new failed\n"); exit(42); }
         for (int i = 0; i < cfg->ninit; i++)
-                exec_op(L_REG + cfg->init[i].f * 8 + cfg->init[i].u * 4 + cfg->init[i].mi, 0);
+                exec_op(L_REG + cfg->init[i].f * FS + cfg->init[i].u * NM + cfg->init[i].mi, 0);
 
         int prefix = -1, dead = 0;
         for (int i = 0; i < n && !G.bad; i++) {
@@ -638,7 +639,7 @@ static const struct cfg CFGS[] = {
  * library's traversal and reach the cursor fix-up, and gives the evidence file a readable sample. */
 static void self_check(void)
 {
-        static const uint8_t h[] = { 0 * 8 + 0 * 4 + 3, 1 * 8 + 0 * 4 + 3, 0 * 8 + 1 * 4 + 3,      /* reg(f0,u0,ALL) reg(f1,u0,ALL) reg(f0,u1,ALL) */
+        static const uint8_t h[] = { 0 * FS + 0 * NM + 3, 1 * FS + 0 * NM + 3, 0 * FS + 1 * NM + 3,      /* reg(f0,u0,ALL) reg(f1,u0,ALL) reg(f0,u1,ALL) */
                                      L_IN + 0, L_UNREG + 1 * 2 + 0,                                /* in(f0,u0): unreg(f1,u0) */
                                      L_RAISE + 1 };                                                /* raise(CAPTION) */
         uint64_t hash[2];
@@ -673,7 +674,7 @@ int main(int argc, char **argv)
         mc_set_budget(120, 1500);
         mc_meta("level", "model_checking");
         mc_meta("technique", "explicit-state BFS over call histories on the real vbi_decoder event registry, list model oracle driven by the real callbacks, AddressSanitizer for freed records");
-        mc_meta("rule", "a case is a history over 67 letters (24 register, 6 unregister, 24 legacy add, 3 legacy remove, 3 raise, 1 real Teletext transmission, 6 'in handler h:' prefixes that script the following call into h's next invocation; <=2 scripted calls); every history within the depth is replayed on a fresh decoder, audited call by call, then probed with a raise of each type and a transmission; states are canonical (ordered (function,user pointer,mask) list, event_mask, pending scripts) modulo renaming of functions and user pointers; non-trivial = at least one callback was delivered or a scripted action ran");
+        mc_meta("rule", "a case is a history over 79 letters (30 register = 3 functions x 2 user pointers x masks {TTX, CC, TTX|CC, -1, TRIGGER|NETWORK}, 6 unregister, 30 legacy add, 3 legacy remove, 3 raise, 1 real Teletext transmission, 6 'in handler h:' prefixes that script the following call into h's next invocation; <=2 scripted calls); every history within the depth is replayed on a fresh decoder, audited call by call, then probed with a raise of each type and a transmission; states are canonical (ordered (function,user pointer,mask) list, event_mask, pending scripts) modulo renaming of functions and user pointers; non-trivial = at least one callback was delivered or a scripted action ran");
         mc_meta("assume", "the registry compares handler functions and user pointers for equality only (justifies the symmetry reduction over the 3 functions x 2 user pointers)");
         mc_meta("assume", "unregister+register of the same (function,user pointer) inside one delivery creates a new registration, which 'may be called at most once for that event' like any handler added during delivery");
         mc_meta("assume", "a mask change that drops the event type before the handler's turn counts as removal for that type; one that adds it counts as added during delivery (0 or 1 calls accepted)");
@@ -687,7 +688,7 @@ int main(int argc, char **argv)
         if (!mc_replaying) self_check();
         for (unsigned i = 0; i < sizeof CFGS / sizeof *CFGS; i++) {
                 mc_bfs_spec spec; memset(&spec, 0, sizeof spec);
-                spec.nletters = NLETTERS; spec.max_depth = CFGS[i].depth[tier]; spec.timeout_s = 30;
+                spec.nletters = NLETTERS; spec.max_depth = CFGS[i].depth[tier]; spec.timeout_s = 6;
                 spec.run = run; spec.arg = (void *) &CFGS[i]; spec.letter_name = letter_name;
                 mc_bfs_result res;
                 char phase[64]; snprintf(phase, sizeof phase, "registry-%s", CFGS[i].name);
